@@ -16,6 +16,7 @@ META = {
             'CHAIN ,,ALL or CHAIN MERGE with a random COMMON subset; the probe vector (every value read back, FN call, DEFtype/OPTION BASE/RND probes, re-DIM) is judged by ResetState.tla: preserved exactly iff COMMON/ALL, otherwise cleared.',
     'note': 'Trusted: TLC, hook H1, the probes. After CHAIN the fate of DEF FN / DEFtype / OPTION BASE is not constrained (the statement speaks of variables). Known finding: CLEAR keeps the GOSUB stack.',
 }
+META['text'] += ' Scalars and arrays of the same name (E!/E!(), F%/F%(), S$/S$()) are declared COMMON independently.'
 
 SETUPS = None
 
